@@ -116,6 +116,7 @@ def run(ctx):
     env = hir.Env(fn["hir"], F)
     sym = hir.Sym(env, F, depth=40)
     a1(ctx, F, fn, body, sym)
+    a7(ctx, F, fn, body, sym)
     a2_to_a6(ctx, F, fn, body, sym)
 
 
@@ -123,6 +124,47 @@ PANICKING_STD = ("::clamp", "Duration::mul_f64", "Duration::div_f64", "Duration:
                  "::pow", "::ilog", "::ilog2", "::ilog10", "::div_ceil", "::next_multiple_of", "::rem_euclid", "::div_euclid",
                  "ops::Add>::add", "ops::Sub>::sub", "ops::Mul>::mul", "ops::Div>::div", "ops::AddAssign>::add_assign",
                  "ops::SubAssign>::sub_assign")
+
+
+def a7(ctx, F, fn, body, sym):
+    """A7 each clock word of `go` fills its own parameter: the arm for `wtime` stores the parsed number in wtime (not in btime, not
+    twice for one word) - the budget clauses take the parameters as given, this is where they are given."""
+    WORDS = {"wtime": ("wtime",), "btime": ("btime",), "winc": ("winc",), "binc": ("binc",), "movetime": ("move_time", "movetime")}
+    table = None
+    for n, _ in hir.walk(body):
+        if n.get("k") == "Match" and n.get("src") == "Normal":
+            t = []
+            for a_ in n["arms"]:
+                ws = [w_ for w_ in _words(hir.pat_key(a_["pat"])) if w_ in WORDS]
+                tg = []
+                for x, _ in hir.walk(a_["body"]):
+                    if x.get("k") == "Assign":
+                        l0 = hir.strip(x["l"])
+                        nm = l0["to"].get("name") if l0.get("k") == "Path" else (l0.get("name") if l0.get("k") == "Field" else None)
+                        tg.append(nm)
+                for w_ in ws:
+                    t.append((w_, tg))
+            if len({w_ for w_, _ in t}) >= 4:
+                table = (n, t)
+    if table is None:
+        return          # the words are not read by one match over literals: nothing this rule can say
+    n, t = table
+    bad = []
+    seen = set()
+    for w_, tg in t:
+        if w_ in seen:
+            bad.append((w_, "a second arm for the same word (never reached)"))
+            continue
+        seen.add(w_)
+        if len(tg) != 1 or str(tg[0]).split("'")[0] not in WORDS[w_]:
+            bad.append((w_, "stores into %s" % tg))
+    for w_ in WORDS:
+        if w_ not in seen:
+            bad.append((w_, "no arm"))
+    ctx.check("C13.A7", "each-clock-word-fills-its-own-parameter", not bad, fn=GO, file=fn["file"], line=hir.line(n),
+              what="a clock word of `go` is not stored in its own parameter: the budget is computed from the wrong number or never "
+                   "(with one of the four missing there is no clock budget and the search runs until stopped)",
+              expected={k: v[0] for k, v in WORDS.items()}, found=bad)
 
 
 def a1(ctx, F, fn, body, sym):
@@ -238,6 +280,18 @@ def a2_to_a6(ctx, F, fn, body, sym):
                     bad.append((given, side, hir.fmt(v, 100)))
                 else:
                     partial.append((side, given, millis(v), v))
+        # a parameter set for which the budget expression unwraps a parameter that was not given panics on the command thread
+        unwraps = []
+        for side in ("White", "Black"):
+            for missing in CLOCKS + (None,):
+                given = tuple(c for c in CLOCKS if c != missing) if missing else ()
+                v = case(given, side)
+                for t_ in hir.subterms(v):
+                    if isinstance(t_, tuple) and t_[:1] == ("call",) and str(t_[1]).endswith(("::unwrap", "::expect")) and t_[2] and t_[2][0] == NONE:
+                        unwraps.append((given, side))
+        ctx.check("C13.A3", "no-unwrap-of-a-parameter-that-was-not-given", not unwraps, fn=GO, file=fn["file"],
+                  what="for some set of clock parameters the budget unwraps one that was not given: the `go` panics instead of thinking",
+                  found=sorted(set(unwraps))[:3])
         ctx.check("C13.A3", "no-clock-budget-without-the-mover's-clock", not bad, fn=GO, file=fn["file"],
                   what="a clock budget is defined although the clock of the side to move was not given", found=bad[:2])
         for side in ("White", "Black"):
